@@ -13,7 +13,9 @@ package v2
 //@ spec func orKey(p *phase0.BLSPubKey, d *phase0.BLSPubKey) *phase0.BLSPubKey = p != nil ? p : d
 //@
 //@ // a decoded configuration has no JSON null among its relay and proposer entries (rejected by UnmarshalJSON)
-//@ spec func validConfig(e *ExecutionConfig) bool = e != nil && (forall a string :: in(e.Relays, a) ==> e.Relays[a] != nil) && (forall k int :: 0 <= k && k < len(e.Proposers) ==> e.Proposers[k] != nil && (forall a string :: in(e.Proposers[k].Relays, a) ==> e.Proposers[k].Relays[a] != nil))
+//@ // (the *decimal.Decimal values of a configuration are separately allocated objects, not fields of resolved relay settings)
+//@ spec func validConfig(e *ExecutionConfig) bool = e != nil && e.MinValue >= 0 && (forall a string :: in(e.Relays, a) ==> e.Relays[a] != nil && e.Relays[a].MinValue >= 0) && (forall k int :: 0 <= k && k < len(e.Proposers) ==> validProposer(e.Proposers[k]))
+//@ spec func validProposer(p *ProposerConfig) bool = p != nil && p.MinValue >= 0 && (forall a string :: in(p.Relays, a) ==> p.Relays[a] != nil && p.Relays[a].MinValue >= 0)
 //@
 //@ func setRelayConfig
 //@   requires config != nil && relayConfig != nil
@@ -63,3 +65,50 @@ package v2
 //@   ensures forall j int, k int :: 0 <= j && j < k && k < len(config.Relays) ==> config.Relays[j].Address != config.Relays[k].Address
 //@   ensures forall a string :: in(e.Relays, a) ==> exists k int :: 0 <= k && k < len(config.Relays) && config.Relays[k].Address == a
 //@   modifies config.Relays
+//@
+//@ // ---- stage 2: the first matching proposer entry P over what stage 1 produced ----
+//@ spec func prOf(p *ProposerConfig, a string) *ProposerRelayConfig = in(p.Relays, a) ? p.Relays[a] : nil
+//@ spec func disabledIn(p *ProposerConfig, a string) bool = in(p.Relays, a) && p.Relays[a].Disabled
+//@ spec func prFee(p *ProposerConfig, a string) *bellatrix.ExecutionAddress = in(p.Relays, a) ? p.Relays[a].FeeRecipient : nil
+//@ spec func prGas(p *ProposerConfig, a string) *uint64 = in(p.Relays, a) ? p.Relays[a].GasLimit : nil
+//@ spec func prGrace(p *ProposerConfig, a string) *time.Duration = in(p.Relays, a) ? p.Relays[a].Grace : nil
+//@ spec func prMin(p *ProposerConfig, a string) *decimal.Decimal = in(p.Relays, a) ? p.Relays[a].MinValue : nil
+//@ spec func prKey(p *ProposerConfig, a string) *phase0.BLSPubKey = in(p.Relays, a) ? p.Relays[a].PublicKey : nil
+//@ // an inherited relay r after the proposer entry was applied, relative to its fields before (pf, pg, pr, pm, pk)
+//@ spec func inheritedOK(p *ProposerConfig, r *beaconblockproposer.RelayConfig, pf bellatrix.ExecutionAddress, pg uint64, pr time.Duration, pm decimal.Decimal, pk *phase0.BLSPubKey) bool = r.FeeRecipient == orFee(prFee(p, r.Address), orFee(p.FeeRecipient, pf)) && r.GasLimit == orGas(prGas(p, r.Address), orGas(p.GasLimit, pg)) && r.Grace == orGrace(prGrace(p, r.Address), orGrace(p.Grace, pr)) && r.MinValue == orMin(prMin(p, r.Address), orMin(p.MinValue, pm)) && r.PublicKey == orKey(prKey(p, r.Address), pk)
+//@ // a relay r that only the proposer entry names
+//@ spec func addedOK(e *ExecutionConfig, p *ProposerConfig, r *beaconblockproposer.RelayConfig, fbFee bellatrix.ExecutionAddress, fbGas uint64) bool = in(p.Relays, r.Address) && r.PublicKey == p.Relays[r.Address].PublicKey && r.FeeRecipient == orFee(p.Relays[r.Address].FeeRecipient, orFee(p.FeeRecipient, orFee(e.FeeRecipient, fbFee))) && r.GasLimit == orGas(p.Relays[r.Address].GasLimit, orGas(p.GasLimit, orGas(e.GasLimit, fbGas))) && r.Grace == orGrace(p.Relays[r.Address].Grace, orGrace(p.Grace, orGrace(e.Grace, 0))) && r.MinValue == orMin(p.Relays[r.Address].MinValue, orMin(p.MinValue, orMin(e.MinValue, decimal.Zero)))
+//@
+//@ func (*ExecutionConfig).setProposerConfigOptions
+//@   requires validConfig(e) && config != nil && validProposer(proposerConfig)
+//@   ghost src (Array Int Int)
+//@   at call append#1: ghost src[len(relays)] = rangeindex#5
+//@   at call append#2: ghost src[len(relays)] = rangeindex#5
+//@   requires forall k int {config.Relays[k]} :: 0 <= k && k < len(config.Relays) ==> config.Relays[k] != nil
+//@   requires forall j int, k int :: 0 <= j && j < k && k < len(config.Relays) ==> config.Relays[j].Address != config.Relays[k].Address
+//@   loop 1
+//@     invariant -1 <= rangeindex && rangeindex < len(config.Relays) && config.Relays == old(config.Relays)
+//@     invariant forall k int {config.Relays[k]} :: 0 <= k && k < len(config.Relays) ==> config.Relays[k].FeeRecipient == (k <= rangeindex ? deref(proposerConfig.FeeRecipient) : prev(config.Relays[k]).FeeRecipient)
+//@   loop 2
+//@     invariant -1 <= rangeindex#2 && rangeindex#2 < len(config.Relays) && config.Relays == old(config.Relays)
+//@     invariant forall k int {config.Relays[k]} :: 0 <= k && k < len(config.Relays) ==> config.Relays[k].GasLimit == (k <= rangeindex#2 ? deref(proposerConfig.GasLimit) : prev(config.Relays[k]).GasLimit)
+//@   loop 3
+//@     invariant -1 <= rangeindex#3 && rangeindex#3 < len(config.Relays) && config.Relays == old(config.Relays)
+//@     invariant forall k int {config.Relays[k]} :: 0 <= k && k < len(config.Relays) ==> config.Relays[k].Grace == (k <= rangeindex#3 ? deref(proposerConfig.Grace) : prev(config.Relays[k]).Grace)
+//@   loop 4
+//@     invariant -1 <= rangeindex#4 && rangeindex#4 < len(config.Relays) && config.Relays == old(config.Relays)
+//@     invariant forall k int {config.Relays[k]} :: 0 <= k && k < len(config.Relays) ==> config.Relays[k].MinValue == (k <= rangeindex#4 ? deref(proposerConfig.MinValue) : prev(config.Relays[k]).MinValue)
+//@   loop 5
+//@     invariant -1 <= rangeindex#5 && rangeindex#5 < len(config.Relays) && (proposerConfig.ResetRelays ==> len(config.Relays) == 0) && (!proposerConfig.ResetRelays ==> config.Relays == old(config.Relays))
+//@     invariant forall m int {relays[m]} :: 0 <= m && m < len(relays) ==> relays[m] != nil && 0 <= src[m] && src[m] <= rangeindex#5 && relays[m] == config.Relays[src[m]] && !fresh(relays[m]) && !proposerConfig.ResetRelays && !disabledIn(proposerConfig, relays[m].Address) && relays[m].Address == prev(relays[m]).Address && inheritedOK(proposerConfig, relays[m], prev(relays[m]).FeeRecipient, prev(relays[m]).GasLimit, prev(relays[m]).Grace, prev(relays[m]).MinValue, prev(relays[m]).PublicKey)
+//@     invariant forall k int {config.Relays[k]} :: rangeindex#5 < k && k < len(config.Relays) ==> config.Relays[k].Address == prev(config.Relays[k]).Address && config.Relays[k].PublicKey == prev(config.Relays[k]).PublicKey && config.Relays[k].FeeRecipient == orFee(proposerConfig.FeeRecipient, prev(config.Relays[k]).FeeRecipient) && config.Relays[k].GasLimit == orGas(proposerConfig.GasLimit, prev(config.Relays[k]).GasLimit) && config.Relays[k].Grace == orGrace(proposerConfig.Grace, prev(config.Relays[k]).Grace) && config.Relays[k].MinValue == orMin(proposerConfig.MinValue, prev(config.Relays[k]).MinValue)
+//@     invariant forall j int {config.Relays[j]} :: 0 <= j && j <= rangeindex#5 ==> in(updated, config.Relays[j].Address)
+//@   loop 6
+//@     invariant forall m int {relays[m]} :: 0 <= m && m < len(relays) ==> relays[m] != nil && !disabledIn(proposerConfig, relays[m].Address) && (fresh(relays[m]) ? addedOK(e, proposerConfig, relays[m], fallbackFeeRecipient, fallbackGasLimit) : (!proposerConfig.ResetRelays && relays[m].Address == prev(relays[m]).Address && inheritedOK(proposerConfig, relays[m], prev(relays[m]).FeeRecipient, prev(relays[m]).GasLimit, prev(relays[m]).Grace, prev(relays[m]).MinValue, prev(relays[m]).PublicKey)))
+//@   // C10: the proposer entry's fee recipient over what was there
+//@   ensures config.FeeRecipient == orFee(proposerConfig.FeeRecipient, old(config.FeeRecipient))
+//@   // C10: every resulting relay is either an inherited one (kept only without reset_relays) with proposer-relay over proposer
+//@   // over previous values, or one that only the proposer entry names with proposer-relay over proposer over top-level over
+//@   // fallback values; no relay that the proposer entry disables is among them
+//@   ensures forall m int {config.Relays[m]} :: 0 <= m && m < len(config.Relays) ==> config.Relays[m] != nil && !disabledIn(proposerConfig, config.Relays[m].Address) && (fresh(config.Relays[m]) ? addedOK(e, proposerConfig, config.Relays[m], fallbackFeeRecipient, fallbackGasLimit) : (!proposerConfig.ResetRelays && config.Relays[m].Address == prev(config.Relays[m]).Address && inheritedOK(proposerConfig, config.Relays[m], prev(config.Relays[m]).FeeRecipient, prev(config.Relays[m]).GasLimit, prev(config.Relays[m]).Grace, prev(config.Relays[m]).MinValue, prev(config.Relays[m]).PublicKey)))
+//@   modifies config.FeeRecipient, config.Relays, contents(config.Relays[0])
